@@ -272,7 +272,7 @@ def render_src(spec, modpath, pkgname="src"):
     s = spec["src"]
     mp = spec.get("mapper")
     body = ["package " + pkgname, ""]
-    need_dest = any(mentions_pkg(t, "dest") for t in all_types(spec) if True) and (
+    need_dest = bool(spec.get("manual")) or any(mentions_pkg(t, "dest") for t in all_types(spec) if True) and (
         any(mentions_pkg(m["type"], "dest") for _, m in leaves(s)) or
         (mp and any(mentions_pkg(f["param"], "dest") or mentions_pkg(f["result"], "dest") for f in mp["funcs"])))
     imps = []
@@ -293,6 +293,15 @@ def render_src(spec, modpath, pkgname="src"):
         top = dict(s, members=[{"k": "e", "decl": {"name": mp["name"], "members": [], "kind": "plain"}, "ptr": mp["ptr"]}] + s["members"])
     body.append(render_struct(top, "src"))
     body.append("")
+    man = spec.get("manual")
+    if man:
+        key = spec["flags"]["alias"] or "dest"
+        kp = key[:1].upper() + key[1:]
+        dt = "dest." + spec["dname"]
+        if man.get("write"):
+            body.append("func (x *%s) %s%s(d *%s) {}\n" % (s["name"], man["write"], kp, dt))
+        if man.get("read"):
+            body.append("func (x *%s) %s%s(d %s%s) {}\n" % (s["name"], man["read"], kp, "*" if man.get("readptr") else "", dt))
     for d in embed_decls(s):
         body.append(render_struct(d, "src"))
         body.append("")
@@ -412,6 +421,7 @@ def case_sexp(cid, spec, masks=None, fmasks=None, prop="C05"):
          ["src", spec["src"]["kind"]] + members_sexp(spec["src"], tix),
          ["dest", spec["dest"]["kind"]] + members_sexp(spec["dest"], tix),
          mx,
+         ["manual"] + ([k for k in ("read", "write") if (spec.get("manual") or {}).get(k)]),
          ["slots", ["src"] + [Q(x) for x in slots(side_struct(spec, "src"))], ["dest"] + [Q(x) for x in slots(spec["dest"])]],
          ["masks"] + [Q(m) for m in (masks or [])],
          ["fmasks"] + [Q(m) for m in (fmasks or [])]]
@@ -447,6 +457,7 @@ NONE = [(STR, SL(INT)), (INT, MAP_SI), (SL(INT), SL(I64)), (SRC_SUB, INT), (SL(S
         (STR, INT), (MAP_SI, MAP_SS), (P(INT), P(I64)), (SL(STR), STR), (F64, STR)]
 FUNCABLE = [(INT, STR), (STR, DEST_DEC), (INT, I64), (INT, INT), (STR, INT), (F64, STR), (STR, STR), (I32, STR),
             (SRC_KIND, DEST_DEC), (SRC_SUB, DEST_SUB), (I64, DEST_TEXT), (SL(INT), STR)]
+FUNCONLY = [(STR, DEST_DEC), (STR, INT), (F64, STR), (I32, STR), (SL(INT), STR), (STR, F64)]   # no conversion exists
 SUBS = [(SRC_SUB, DEST_SUB), (SRC_ITEM, DEST_ITEM)]
 NAMEDSCALAR = [(SRC_KIND, DEST_KIND), (SRC_LABEL, DEST_TEXT), (SRC_KIND, DEST_CODE), (P(SRC_KIND), P(DEST_KIND)),
                (SL(SRC_KIND), SL(DEST_KIND))]
@@ -475,6 +486,8 @@ class MapGen:
             a, b = self.pick(NONE)
         elif kind == "func":
             a, b = self.pick(FUNCABLE)
+        elif kind == "funconly":
+            a, b = self.pick(FUNCONLY)
         elif kind == "sub":
             a, b = self.pick(SUBS)
             if r.random() < 0.5:
@@ -578,9 +591,9 @@ class MapGen:
             else:
                 sfields[sp].append(F(sn, a, tag))
                 dfields[dp].append(F(dn, b))
-            if (kind == "func" or (kind in ("conv", "same", "sub") and r.random() < o.get("func_over", 0.15))) and not (
+            if (kind in ("func", "funconly") or (kind in ("conv", "same", "sub") and r.random() < o.get("func_over", 0.15))) and not (
                     elem_struct(a) or elem_struct(b)):
-                way = r.random()
+                way = 0.5 if kind == "funconly" else r.random()
                 if way < 0.8:
                     funcs.append({"param": a, "result": b})
                 if way > 0.2 and a != b:
@@ -660,6 +673,10 @@ class MapGen:
                 f["name"] = "Fn%d" % i
             mapper = {"name": "Mapper", "ptr": r.random() < o.get("mapper_ptr", 0.0), "recvptr": False, "funcs": funcs}
         spec = {"flags": flags, "sname": sname, "dname": dname, "src": src, "dest": dest, "mapper": mapper}
+        # empty manual hooks (toX/writeX, fromX/readX): called last, assign nothing
+        if r.random() < o.get("manual", 0.0):
+            spec["manual"] = {"write": self.pick([None, "to", "write"]), "read": self.pick(["from", "read", "read"]),
+                              "readptr": r.random() < 0.5}
         return spec
 
 
@@ -805,6 +822,143 @@ def text_writes(sp, text):
     if frm:
         spread("writes:from:", sp["src"], writes_of(frm, svar, leaf_of_accessor(sp["src"])))
     return out
+
+
+# ------------------------------------------------------------------------------------------------
+# C01 leg: every successful `shoot map` run yields Go that compiles with its package
+# ------------------------------------------------------------------------------------------------
+
+C01_HEADER = re.compile(r'^// Code generated by "shoot [^"\n]*"; DO NOT EDIT\.')
+C01_MODES = ["type", "list", "file", "star"]
+EXTRA_SRC = "type Extra struct {\n\tN int\n\tLabel string\n\tCnt int64\n}\n"
+EXTRA_DEST = "type Extra struct {\n\tN int\n\tLabel string\n\tCnt int64\n}\n"
+
+
+def c01_case(ctx, g, cid, mode, opts, new_sides=()):
+    """one src/dest package pair rendered for a selection mode: -type=S | -type=S,Extra (S embeds a mapper, Extra does not) |
+    -file=s.go | -type=* with a matching go:generate line"""
+    from . import core  # noqa: F401
+    rng = ctx.rng
+    o = dict(opts)
+    if mode in ("file", "star"):
+        o["embeds"] = 0.0          # every exported struct of the file / package is mapped: keep to the top-level pair
+    sp = g.pair(**o)
+    if mode in ("file", "star"):   # -to needs -type
+        sp["dname"] = sp["sname"]
+        sp["dest"] = dict(sp["dest"], name=sp["sname"])
+    if mode == "list":
+        # the first type embeds a custom mapper whose methods fit the second type's fields; the second type has no mapper
+        mp = sp.get("mapper") or {"name": "Mapper", "ptr": False, "recvptr": False, "funcs": []}
+        for a, b in ((INT, INT), (STR, STR)):
+            if all((f["param"], f["result"]) != (a, b) for f in mp["funcs"]) and len(mp["funcs"]) < 6:
+                mp["funcs"].append({"name": "Fn%d" % len(mp["funcs"]), "param": a, "result": b})
+        mp["ptr"] = False
+        sp["mapper"] = mp
+    for sd in new_sides:
+        to_new(rng, sp, sd, setonly=0.05)
+    c = make_case(cid, sp, prop="C01")
+    c["oracle"] = {}
+    pkg = "src" + "".join(ch for ch in cid if ch.isalnum())
+    last = c["runs"][-1]
+    if mode == "list":
+        c["files"]["src/s.go"] += "\n" + EXTRA_SRC
+        c["files"]["dest/d.go"] += "\n" + EXTRA_DEST
+        args = [a for a in last["args"] if not a.startswith("-type=") and not a.startswith("-to=")]
+        args.append("-to=%s,Extra" % sp["dname"])
+        args.append("-type=%s,Extra" % sp["sname"])
+        last["args"] = args
+    elif mode == "file":
+        last["args"] = [a for a in last["args"] if not a.startswith("-type=") and not a.startswith("-to=")] + ["-file=s.go"]
+    elif mode == "star":
+        args = [a for a in last["args"] if not a.startswith("-type=") and not a.startswith("-to=")] + ["-type=*"]
+        last["args"] = args
+        c["files"]["src/s.go"] = c["files"]["src/s.go"].replace(
+            "package %s\n" % pkg, "package %s\n\n//go:generate shoot %s\n" % (pkg, " ".join(args)), 1)
+        c["runs"] = [r_ for r_ in c["runs"] if r_ is last or r_["args"][0] == "new"]
+    c.update({"area": "map", "mode": mode, "pkg": pkg, "key": c["sexp"], "cmd": "cd src && shoot " + " ".join(last["args"]),
+              "newsides": "+".join(new_sides) or "plain"})
+    return c
+
+
+def c01_observe(ctx, cases):
+    """exit / compile / header / gofmt / package for the generated files of the src package"""
+    from . import core, pkgrun
+    b = pkgrun.Batch(ctx, "c01map")
+    for c in cases:
+        b.add(c)
+    out = b.execute()
+    p = core.run(["gofmt", "-l", "."], cwd=b.root)
+    unformatted = set(p.stdout.split())
+    impl = {}
+    for c in cases:
+        r = out[c["id"]]
+        rcs = [x["rc"] for x in r["runs"]]
+        rc = 0 if all(x == 0 for x in rcs) else [x for x in rcs if x != 0][0]
+        im = {"exit": str(rc)}
+        gen = {k: v for k, v in r["written"].items() if ".shootmap" in k and k.startswith("src/")}
+        if rc == 0:
+            im["compile"] = "ok" if r["compile"] == "ok" else "error"
+            im["header"] = "ok" if gen and all(C01_HEADER.match(v) for v in gen.values()) else ("none-written" if not gen else "missing")
+            im["gofmt"] = "ok" if not any(("c_%s/%s" % (c["id"], k)) in unformatted for k in gen) else "unformatted"
+            im["package"] = "ok" if all(re.search(r"^package %s$" % c["pkg"], v, flags=re.M) for v in gen.values()) else "wrong"
+        c["detail"] = {"compile": r["compile"], "stderr": r["runs"][-1]["stderr"][-400:], "written": sorted(gen)}
+        impl[c["id"]] = im
+    return impl
+
+
+def c01_leg(ctx, res, n):
+    """run n map cases for C01 and record them in res (core.Result); returns the number of cases"""
+    from . import core
+    rng = ctx.rng
+    g = MapGen(rng)
+    base = dict(multi=0.0, dupfunc=0.0)
+    plan = []          # (mode, generator options, accessor-mode sides)
+    # 1. every selection mode x the flag settings, plain pairs with the whole type palette
+    for k, fl in enumerate([{}, {"way": "to"}, {"way": "from"}, {"i": True}, {"alias": "domain"}, {"i": True, "alias": "tgt", "way": "to"}]):
+        for m in C01_MODES:
+            plan.append((m, dict(base, flags=fl), ()))
+    # 2. the input classes of the finding regions, and the shapes the templates branch on
+    shaped = [dict(kinds=["namedscalar", "same"], names=["ident"]), dict(kinds=["ptrconv", "same"], names=["ident"]),
+              dict(kinds=["conv"], names=["ident"], n=(4, 5)), dict(kinds=["sub", "each"], names=["ident", "tag"]),
+              dict(kinds=["func", "funconly"], names=["ident", "acronym"]), dict(embeds=1.0, depth2=1.0, ptr_embed=0.7, deep=0.9),
+              dict(kinds=["same", "conv", "func"], func_over=0.6), dict(manual=1.0)]
+    for k, o in enumerate(shaped):
+        plan.append((C01_MODES[k % 4] if "embeds" not in o else "type", dict(base, **o), ()))
+    # 3. accessor-mode sides (constructor + getters/setters), single-type runs
+    for sides in (("dest",), ("src",), ("src", "dest")):
+        for k in range(2):
+            plan.append(("type", dict(base, embeds=0.0, shadow=0.0, unexported=0.0, names=["ident"] * 4 + ["acronym", "tag"]), sides))
+    plan = plan[:n]
+    while len(plan) < n:
+        r = rng.random()
+        if r < 0.25:
+            sides = rng.choice([("dest",), ("src",), ("src", "dest")])
+            plan.append(("type", dict(base, embeds=0.0, shadow=0.0, unexported=0.0), sides))
+        else:
+            o = dict(base)
+            if rng.random() < 0.15:
+                o["kinds"] = rng.choice([["namedscalar", "same", "conv"], ["ptrconv", "same"]])
+            plan.append((rng.choice(C01_MODES), o, ()))
+    cases = [c01_case(ctx, g, "m%d" % i, m, o, sides) for i, (m, o, sides) in enumerate(plan)]
+    impl = c01_observe(ctx, cases)
+    model = core.model_run(ctx, [c["sexp"] for c in cases], driver="shootmodel_map")
+    for c in cases:
+        res.hist("area", c["area"])
+        res.hist("mode", "map:" + c["mode"])
+        res.hist("map-sides", c["newsides"])
+        fl = c["spec"]["flags"]
+        for f, on in (("-way", fl["way"] != "both"), ("-i", fl["i"]), ("-alias", bool(fl["alias"])), ("-to", c["spec"]["sname"] != c["spec"]["dname"])):
+            if on:
+                res.hist("flag", "map" + f)
+    core.compare_cases(ctx, res, cases, impl, model,
+                       sig=lambda c, region, dk, im, m: region if region.startswith("F_") else region + ":" + ",".join(sorted(dk)),
+                       nontrivial=lambda c, m, im: m["region"] != "Out")
+    for v in res.violations:
+        for c in cases:
+            if c["sexp"] == v["case"]:
+                v.setdefault("detail", c.get("detail"))
+                v.setdefault("sources", c.get("files"))
+    return len(cases)
 
 
 def count_features(spec, feats=None):
